@@ -70,6 +70,8 @@ def isinstance_z(it, v, cls):
         if name in ("NoneType", "type(None)"):
             return v.isnone
         return z3.And(z3.Not(v.isnone), isinstance_z(it, v.inner, cls))
+    if isinstance(v, VUnion):
+        return z3.Or([z3.And(c, isinstance_z(it, x, cls)) for c, x in v.alts])
     if isinstance(v, VJson):
         z = v.z
         return {"str": J.is_jstr(z), "int": z3.Or(J.is_jint(z), J.is_jbool(z)), "bool": J.is_jbool(z),
@@ -428,6 +430,28 @@ def b_filter(it, args, kw, fr):
             if it.ctx.branch(keep):
                 out.append(x)
         return VList(out)
+    if isinstance(seq, VSeq):
+        # pure predicate over a symbolic sequence: the kept elements, in order
+        x = z3.Const("x!flt", sort_of(seq.elem))
+        i = z3.Int("i!flt")
+        j = z3.Int("j!flt")
+        xv = from_z3(x, seq.elem)
+        it.spec_mode += 1
+        try:
+            pred = it.truth(it.call(fn, [xv], {}, fr)) if fn is not NONE else it.truth(xv)
+        finally:
+            it.spec_mode -= 1
+        r = z3.Const(it.ctx.namer("filtered"), seq.z.sort())
+        it.ctx.assume(z3.Length(r) <= z3.Length(seq.z))
+        src = z3.Function(it.ctx.namer("flt_src"), IntS, IntS)
+        it.ctx.assume(z3.ForAll([j], z3.Implies(z3.And(0 <= j, j < z3.Length(r)),
+                                                z3.And(z3.substitute(pred, (x, r[j])), 0 <= src(j), src(j) < z3.Length(seq.z),
+                                                       r[j] == seq.z[src(j)]))))
+        it.ctx.assume(z3.Implies(z3.ForAll([i], z3.Implies(z3.And(0 <= i, i < z3.Length(seq.z)),
+                                                           z3.substitute(pred, (x, seq.z[i])))), r == seq.z))
+        it.reg.note("filter(pred, seq) over a symbolic sequence: result elements satisfy pred and come from seq; "
+                    "equals seq when every element satisfies pred (order-preserving subsequence not otherwise specified)")
+        return VSeq(r, seq.elem)
     raise OutOfSubset("filter over symbolic sequence")
 
 
@@ -547,6 +571,8 @@ def m_jsondict(it, recv, meth, args, kwargs):
             return default
         ent = z3.Select(d, k.z)
         return VJson(z3.If(OJ.is_present(ent), OJ.v(ent), to_json(default)))
+    if not hasattr(dict, meth):
+        it.raise_("AttributeError", VStr(f"'dict' object has no attribute '{meth}'"))
     raise OutOfSubset(f"json dict method {meth}")
 
 
@@ -633,6 +659,8 @@ def m_str(it, s, meth, args, kwargs):
         return hexlify_model(it, s)
     if meth == "isdigit":
         return VBool(z3.InRe(s.z, z3.Plus(rx.digit_re(True))))
+    if not hasattr(str if kind == "str" else bytes, meth):
+        it.raise_("AttributeError", VStr(f"'{kind}' object has no attribute '{meth}'"))
     raise OutOfSubset(f"str method {meth}")
 
 
@@ -767,6 +795,8 @@ def m_seq(it, s, meth, args, kwargs, fr):
         if it.ctx.branch(idx < 0):
             it.raise_("ValueError")
         return VInt(idx)
+    if not hasattr(list, meth) and not hasattr(__import__("collections").deque, meth):
+        it.raise_("AttributeError", VStr(f"'list' object has no attribute '{meth}'"))
     raise OutOfSubset(f"seq method {meth}")
 
 
@@ -1056,6 +1086,8 @@ def isinstance_z(it, v, cls):   # noqa: F811  (extend for namedtuple classes)
     if isinstance(cls, VNamedTupleClass):
         if isinstance(v, VOpt):
             return z3.And(z3.Not(v.isnone), isinstance_z(it, v.inner, cls))
+        if isinstance(v, VUnion):
+            return z3.Or([z3.And(c, isinstance_z(it, x, cls)) for c, x in v.alts])
         return z3.BoolVal(isinstance(v, VTuple) and v.ntname == cls.name)
     if isinstance(cls, VTuple):
         return z3.Or([isinstance_z(it, v, c) for c in cls.items] + [z3.BoolVal(False)])
